@@ -36,7 +36,7 @@ CONSTANTS Caps,        \* capacities of the Ethernet buffer explored by part A
           BigLens,     \* value length classes of BigCode: {0, 1, typical, 254, 255}; 255 is the largest legal length
           IdClasses,   \* classes of the echo identifier of the echo send functions (part C), see EchoIdClasses
           NICs,        \* NIC configurations (names, concretised by the driver)
-          Parts        \* subset of {"build", "alias", "dhcp", "send"}
+          Parts        \* subset of {"build", "alias", "dhcp", "send", "pairs"}
 
 VARIABLES phase,  \* "idle" | "build" | "done" | "rewritten" | "stop" | "vec"
           cap,    \* capacity of the buffer under construction
@@ -44,9 +44,11 @@ VARIABLES phase,  \* "idle" | "build" | "done" | "rewritten" | "stop" | "vec"
           cur,    \* index of the innermost layer not yet attached to its parent
           res,    \* result of the last action: ok | nil | ErrPayloadTooBig | panic
           hist,   \* actions with arguments and expected results (export)
-          vec     \* part B / C: the vector [call, exp, mech]
+          vec,    \* part B / C: the vector [call, exp, mech]
+          pool    \* part C: abstract content of the pooled frame buffer = the last frame a send action built in it;
+                  \* written by every send action, read by NONE (see "The pool is write-only" below)
 
-vars == <<phase, cap, st, cur, res, hist, vec>>
+vars == <<phase, cap, st, cur, res, hist, vec, pool>>
 
 Max(a, b) == IF a > b THEN a ELSE b
 Range(s) == {s[i] : i \in 1..Len(s)}
@@ -123,7 +125,7 @@ DhcpVec(s, order, c, bl) ==
     /\ phase' = "vec"
     /\ vec' = [part |-> "dhcp", cap |-> c, opts |-> SetToSeq(s), order |-> order, optlens |-> OptLens(s, bl), big |-> bl,
                exp |-> DhcpExp(s, order, c, bl)]
-    /\ UNCHANGED <<cap, st, cur, res, hist>>
+    /\ UNCHANGED <<cap, st, cur, res, hist, pool>>
 
 -----------------------------------------------------------------------------
 (* Part A: the build machine                                               *)
@@ -149,12 +151,12 @@ Push(l)   == st' = Append(st, l) /\ cur' = Len(st) + 1 /\ res' = "ok" /\ UNCHANG
 BNew(c) == /\ phase = "idle" /\ "build" \in Parts
            /\ phase' = "build" /\ cap' = c /\ st' = <<>> /\ cur' = 0 /\ res' = "ok"
            /\ Step([a |-> "new", cap |-> c])
-           /\ UNCHANGED vec
+           /\ UNCHANGED <<vec, pool>>
 
 BEther(et) == /\ phase = "build" /\ st = <<>> /\ cap >= 14      \* documented: panics below 14
               /\ Push(L("ether", et, 0, 14, 14, -1, FALSE))
               /\ Step([a |-> "ether", et |-> et, exp |-> [res |-> "ok", len |-> 14]])
-              /\ UNCHANGED vec
+              /\ UNCHANGED <<vec, pool>>
 
 BNet(k) == /\ phase = "build" /\ Len(st) = 1 /\ Top.sub = k /\ HeaderOnly(Top)
            /\ LET hl == CASE k = "ip4" -> 20 [] k = "ip6" -> 40 [] k = "arp" -> 28 IN
@@ -164,14 +166,14 @@ BNet(k) == /\ phase = "build" /\ Len(st) = 1 /\ Top.sub = k /\ HeaderOnly(Top)
                    /\ Step([a |-> k, exp |-> [res |-> "panic", len |-> 0]])
               ELSE /\ Push(L(k, "", 14, hl, hl, LF(k, 0), FALSE))
                    /\ Step([a |-> k, exp |-> [res |-> "ok", len |-> hl, lf |-> LF(k, 0)]])
-           /\ UNCHANGED vec
+           /\ UNCHANGED <<vec, pool>>
 
 BUDP(pc) == /\ phase = "build" /\ Len(st) = 2 /\ IsIP(Top) /\ HeaderOnly(Top)
             /\ IF Rem(Top) < 8
                THEN Stop("nil") /\ Step([a |-> "udp", ports |-> pc, exp |-> [res |-> "nil", len |-> 0]])
                ELSE /\ Push(L("udp", pc, Top.off + Top.hl, 8, 8, 0, FALSE))
                     /\ Step([a |-> "udp", ports |-> pc, exp |-> [res |-> "ok", len |-> 8, lf |-> 0]])
-            /\ UNCHANGED vec
+            /\ UNCHANGED <<vec, pool>>
 
 \* EncodeICMPEcho directly into ip.Payload()
 BEchoIn(n) == /\ phase = "build" /\ Len(st) = 2 /\ IsIP(Top) /\ HeaderOnly(Top)
@@ -179,14 +181,14 @@ BEchoIn(n) == /\ phase = "build" /\ Len(st) = 2 /\ IsIP(Top) /\ HeaderOnly(Top)
                  THEN Stop("nil") /\ Step([a |-> "echoin", n |-> n, exp |-> [res |-> "nil", len |-> 0]])
                  ELSE /\ Push(L("echo", "in", Top.off + Top.hl, 8, 8 + n, -1, FALSE))
                       /\ Step([a |-> "echoin", n |-> n, exp |-> [res |-> "ok", len |-> 8 + n]])
-              /\ UNCHANGED vec
+              /\ UNCHANGED <<vec, pool>>
 
 \* n payload bytes written in place behind the header
 BRawIn(n) == /\ phase = "build" /\ Len(st) \in {2, 3} /\ Top.k \in {"ip4", "ip6", "udp"} /\ HeaderOnly(Top)
              /\ n <= Rem(Top)
              /\ Push(L("raw", "in", Top.off + Top.hl, 0, n, -1, FALSE))
              /\ Step([a |-> "rawin", n |-> n, exp |-> [res |-> "ok", len |-> n]])
-             /\ UNCHANGED vec
+             /\ UNCHANGED <<vec, pool>>
 
 \* EncodeDHCP4 directly into udp.Payload() (as SendDiscoverPacket does)
 BDhcpIn(s, order) ==
@@ -198,7 +200,7 @@ BDhcpIn(s, order) ==
             /\ Push(L("dhcp", "in", Top.off + Top.hl, 0, DhcpLen(s, 0), -1, FALSE))
             /\ Step([a |-> "dhcpin", opts |-> SetToSeq(s), order |-> order, optlens |-> OptLens(s, 0),
                      exp |-> DhcpExp(s, order, Rem(Top), 0)])
-    /\ UNCHANGED vec
+    /\ UNCHANGED <<vec, pool>>
 
 \* parent.AppendPayload(b) with a separately allocated payload b of n bytes
 ExtKinds(k) == CASE k = "udp" -> {"raw", "dns"} [] k = "ip4" -> {"raw", "echo"} [] k = "ip6" -> {"raw", "echo", "ns", "na"}
@@ -219,7 +221,7 @@ BAppendExt(kind, n) ==
             \* it must not change when the encoder is called again (the driver re-encodes decoys before using it)
             /\ Step([a |-> "appext", kind |-> kind, n |-> n, layer |-> Top.k,
                      exp |-> [res |-> "ok", len |-> Top.hl + n, lf |-> LF(Top.k, n), stable |-> TRUE]])
-    /\ UNCHANGED vec
+    /\ UNCHANGED <<vec, pool>>
 
 \* Ether.AppendPayload(b) with a complete, separately built IPv4 packet of n bytes whose slice has
 \* `slack` spare capacity (the code sliced its destination by cap(b) until fix ca70b93; capover marks those cases)
@@ -233,7 +235,7 @@ BEtherAppendExt(n, slack) ==
             /\ Step([a |-> "etherappext", n |-> n, slack |-> slack,
                      exp |-> [res |-> "ok", len |-> Max(60, 14 + n),
                               capover |-> n + slack > cap - 14]])      \* payload slice capacity exceeds the room: still must work
-    /\ UNCHANGED vec
+    /\ UNCHANGED <<vec, pool>>
 
 \* parent.SetPayload(child) / parent.AppendPayload(child) for a child that was built in place
 ChildClosed == cur = Len(st) \/ (cur < Len(st) /\ st[cur + 1].att)
@@ -250,7 +252,7 @@ BAttach(mode) ==
           /\ phase' = IF cur = 2 THEN "done" ELSE "build"
           /\ res' = "ok" /\ UNCHANGED cap
           /\ Step([a |-> "attach", mode |-> mode, layer |-> p.k, exp |-> [res |-> "ok", len |-> plen, lf |-> LF(p.k, n)]])
-    /\ UNCHANGED vec
+    /\ UNCHANGED <<vec, pool>>
 
 \* ---- property level: a decoder that sees only the outer length and the length fields ----
 PayloadByField(l, outer) == CASE l.k = "ether" -> outer - 14
@@ -313,7 +315,7 @@ BRewrite(n2, mu, mi, via) ==
           /\ Step([a |-> "rewrite", n |-> n2, mu |-> mu, mi |-> mi, via |-> via,
                    exp |-> [udplen |-> ulen, udplf |-> IF hasU THEN 8 + n2 ELSE -1, iplen |-> iplen, iplf |-> LF(ip.k, ipn),
                             etherlen |-> 14 + iplen, ideal |-> ideal, kf |-> kf]])
-    /\ UNCHANGED vec
+    /\ UNCHANGED <<vec, pool>>
 
 \* property level: after ANY such sequence the slice lengths agree with the length fields, layer by layer
 RewriteConsistent ==
@@ -362,7 +364,7 @@ AliasVec(c) ==
     /\ phase = "idle" /\ "alias" \in Parts
     /\ phase' = "vec"
     /\ vec' = [part |-> "alias", enc |-> c.enc, pat |-> c.pat, required |-> c.required, supported |-> AliasSupported(c)]
-    /\ UNCHANGED <<cap, st, cur, res, hist>>
+    /\ UNCHANGED <<cap, st, cur, res, hist, pool>>
 AliasNext == phase = "idle" /\ "alias" \in Parts /\ \E c \in AliasCases : AliasVec(c)
 \* the reply-in-place patterns the handlers rely on must be supported by the write order of the encoders
 C03_AliasRequiredSupported == (phase = "vec" /\ vec.part = "alias" /\ vec.required) => vec.supported
@@ -660,11 +662,62 @@ Call(c) ==
       [] c.f = "dns.SendNBNSQuery" -> NBNS(c.src, c.dst, "32")
       [] c.f = "dns.SendNBNSNodeStatus" -> NBNS(HostAddr4, A("bcast", "bcast4"), "33")
 
+PoolAfter(c) == IF Call(c).mech.n = 1 THEN Call(c).mech.fr ELSE pool      \* what the call leaves in the buffer
 Send(c, nic) ==
     /\ phase = "idle" /\ "send" \in Parts
     /\ phase' = "vec"
     /\ vec' = [part |-> "send", nic |-> nic, call |-> c] @@ Call(c)
+    /\ pool' = PoolAfter(c)
     /\ UNCHANGED <<cap, st, cur, res, hist>>
+
+\* ---- The pool is write-only: send histories -------------------------------------------------------------
+\* The frame a send action emits is a function of its parameters only, not of the previous content of the pooled
+\* buffer it is built in.  Part "pairs": a first send (one canonical call per function, chosen to leave non-zero
+\* bytes everywhere) fills the pool, a second send follows on the same process; its vector is Call(next), computed
+\* without looking at `pool`.  dirty = "ee": the driver overwrites the pooled buffers with 0xEE between the two
+\* calls; "prev": the second call finds the first frame's bytes.  C07_PoolNotRead states the frame condition; the
+\* driver additionally compares every frame with the one the same call emits on zero-filled buffers.
+\* (a tuple, not a set: the records have differently typed fields)
+PairCalls == <<
+    [f |-> "ICMP4SendEchoRequest", src |-> HostAddr4, dst |-> A("mac1", "lan4"), idc |-> "rand"],
+    [f |-> "ICMP6SendEchoRequest", src |-> HostLLAAddr, dst |-> "u:lla1", idc |-> "rand"],
+    [f |-> "ICMP6SendNeighborAdvertisement", src |-> HostLLAAddr, dst |-> "u:lla1", tgt |-> A("hostmac", "lla1")],
+    [f |-> "ICMP6SendNeighbourSolicitation", src |-> HostLLAAddr, dst |-> "lib:solnode", ip |-> "lla1"],
+    [f |-> "ICMP6SendRouterSolicitation"],
+    [f |-> "ICMP6SendRouterAdvertisement", np |-> 2, rdnss |-> TRUE, dst |-> "lib:allnodes"],
+    [f |-> "Ping", dst |-> A("mac1", "lan4")],
+    [f |-> "Ping6", src |-> HostLLAAddr, dst |-> "u:lla1"],
+    [f |-> "PurgeProbe", host |-> "lan4"], [f |-> "PurgeProbe", host |-> "gua1"],
+    [f |-> "arp.Request", ip |-> "lan4"], [f |-> "arp.RequestTo", mac |-> "mac1", ip |-> "lan4"],
+    [f |-> "arp.Probe", ip |-> "lan4"], [f |-> "arp.AnnounceTo", mac |-> "mac1", ip |-> "routerip4"],
+    [f |-> "arp.RequestRaw", mac |-> "mac1", src |-> A("hostmac", "routerip4"), dst |-> A("mac1", "lan4")],
+    [f |-> "arp.Reply", mac |-> "mac1", src |-> A("hostmac", "routerip4"), dst |-> A("mac1", "lan4")],
+    [f |-> "dhcp4.SendDiscoverPacket", ch |-> "mac1", ci |-> "lan4", name |-> "long"],
+    [f |-> "dhcp4.ServerReply", mt |-> "2", bcast |-> TRUE, cid |-> "mac"],
+    [f |-> "dhcp4.ServerReply", mt |-> "6", bcast |-> TRUE, cid |-> "long"],
+    [f |-> "dhcp4.ForgedDecline", cid |-> "long"], [f |-> "dhcp4.ForgedRelease", cid |-> "mac"],
+    [f |-> "dns.SendMDNSQuery"], [f |-> "dns.SendLLMNRQuery"], [f |-> "dns.SendSSDPSearch"], [f |-> "dns.SendNBNSNodeStatus"],
+    [f |-> "dns.SendSleepProxyResponse", src |-> HostAddr4, dst |-> A("mac1", "lan4")],
+    [f |-> "dns.SendNBNSQuery", src |-> HostAddr4, dst |-> A("mac1", "lan4")]>>
+PairIdx == 1..Len(PairCalls)
+SendFirst(c, nic) ==
+    /\ phase = "idle" /\ "pairs" \in Parts
+    /\ phase' = "vec"
+    /\ vec' = [part |-> "first", nic |-> nic, call |-> c] @@ Call(c)
+    /\ pool' = PoolAfter(c)
+    /\ UNCHANGED <<cap, st, cur, res, hist>>
+SendSecond(c, dirty) ==
+    /\ phase = "vec" /\ "pairs" \in Parts /\ vec.part = "first"
+    /\ vec' = [part |-> "send", nic |-> vec.nic, call |-> c, prev |-> vec.call, dirty |-> dirty] @@ Call(c)
+    /\ pool' = PoolAfter(c)
+    /\ UNCHANGED <<phase, cap, st, cur, res, hist>>
+PairsNext == "pairs" \in Parts /\
+    \/ phase = "idle" /\ \E n \in NICs, i \in PairIdx : SendFirst(PairCalls[i], n)
+    \/ phase = "vec" /\ vec.part = "first" /\ \E i \in PairIdx, d \in {"ee", "prev"} : SendSecond(PairCalls[i], d)
+\* the second frame does not depend on what the first left behind
+C07_PoolNotRead ==
+    (phase = "vec" /\ vec.part = "send" /\ "prev" \in DOMAIN vec) =>
+        /\ vec.exp = Call(vec.call).exp /\ vec.mech = Call(vec.call).mech      \* whatever `prev` and `pool` were
 
 \* one action per exported send function
 \* the identifier classes other than "rand" are combined with the canonical address pair only
@@ -744,13 +797,13 @@ C07_ExpSelfConsistent ==
 (* against that goroutine's own supplied values.                               *)
 BuildFrame == [][(phase \in {"build", "done"} /\ phase' \in {"build", "done", "rewritten", "stop"}) => vec' = vec]_vars
 
-Init == /\ phase = "idle" /\ cap = 0 /\ st = <<>> /\ cur = 0 /\ res = "ok" /\ hist = <<>> /\ vec = Nil
+Init == /\ phase = "idle" /\ cap = 0 /\ st = <<>> /\ cur = 0 /\ res = "ok" /\ hist = <<>> /\ vec = Nil /\ pool = Nil
 
 \* guards first: a terminal state must not pay for the enumeration of the whole class product
 DhcpNext == phase = "idle" /\ "dhcp" \in Parts /\ \E s \in DhcpSets, o \in DhcpOrders, c \in DhcpCaps :
                \E bl \in (IF BigCode \in s THEN BigLens ELSE {0}) : DhcpVec(s, o, c, bl)
 
-Next == BuildNext \/ RewriteNext \/ AliasNext \/ DhcpNext \/ SendNext
+Next == BuildNext \/ RewriteNext \/ AliasNext \/ DhcpNext \/ SendNext \/ PairsNext
 Spec == Init /\ [][Next]_vars
 
 C03_Dhcp == (phase = "vec" /\ vec.part = "dhcp" /\ vec.exp.res = "ok") =>
